@@ -125,6 +125,9 @@ pub enum Class {
     /// a recursive local function whose depth (0-15) is the low nibble of the packet's first byte:
     /// beyond the interpreter's limit of nested calls on some packets, shallow on others
     DeepCall,
+    /// adjacent indirect packet loads: the second one is indexed by what the first one loaded (source
+    /// register r0), or both use the same other source register
+    ProbePktChain,
 }
 
 impl Class {
@@ -142,6 +145,7 @@ impl Class {
             Class::StackFill => "StackFill",
             Class::ProbePktReload => "ProbePktReload",
             Class::DeepCall => "DeepCall",
+            Class::ProbePktChain => "ProbePktChain",
             Class::ProbeR1 => "ProbeR1",
             Class::ProbeSlotData => "ProbeSlotData",
             Class::ProbeSlotLen => "ProbeSlotLen",
@@ -196,6 +200,7 @@ impl Class {
             Class::StackFill,
             Class::ProbePktReload,
             Class::DeepCall,
+            Class::ProbePktChain,
         ] {
             if c.name() == s {
                 return Some(c);
@@ -1045,6 +1050,35 @@ pub fn gen_deep_call(tag: u8) -> Prog {
     p.min_pkt = 8;
     p.local_call = true;
     p
+}
+
+/// `via_r0`: r0 = i0; ldindb r0, imm1; ldindb r0, imm2 [; ldindb r0, imm3]  - each load indexed by the
+/// byte the previous one returned. Otherwise: rS = i0; ldindb rS, imm1; ldindb rS, imm2 (same source
+/// register twice, the second load's result counts). Needs a packet of 256 + max(imm) + 8 bytes.
+pub fn gen_probe_pkt_chain(tag: u8, i0: usize, imms: &[usize], via_r0: bool, src: u8) -> Prog {
+    let mut b = B::new(tag);
+    let s = if via_r0 { 0 } else { src };
+    b.i(MOV64_IMM, 0, 0, 0, -1);
+    b.i(MOV64_IMM, s, 0, 0, i0 as i32);
+    for imm in imms {
+        b.i(LD_IND_B, 0, s, 0, *imm as i32);
+    }
+    b.trailer(tag);
+    let mut p = mk(b.v, tag, Class::ProbePktChain);
+    p.p0 = i0 as i64;
+    p.p1 = (imms.len() as i64) | if via_r0 { 0x100 } else { 0 };
+    p.w = 1;
+    p.min_pkt = 256 + i0 + imms.iter().copied().max().unwrap_or(0) + 8;
+    p
+}
+
+/// The immediates of a ProbePktChain program, read back from its bytes.
+pub fn chain_imms(p: &Prog) -> Vec<usize> {
+    let n = (p.p1 & 0xff) as usize;
+    (0..n).map(|k| {
+        let at = (3 + k) * 8 + 4;
+        u32::from_le_bytes([p.bytes[at], p.bytes[at + 1], p.bytes[at + 2], p.bytes[at + 3]]) as usize
+    }).collect()
 }
 
 pub const RELOAD_XOR: u32 = 0x5a3c_a5c3;
